@@ -51,7 +51,11 @@ def judge(v, pid, obs, rows, scen_by_id):
         tid, start, trows = vlib.trace_of_line(traces, f["line"])
         e = rows[f["line"] - 1]
         head = trows[0] if trows else {}
-        sc = scen_by_id.get(tid) or {"id": tid, "side": head.get("side"), "gated": head.get("gated"), "steps": steps_of(trows)}
+        sc = scen_by_id.get(tid)
+        if sc is None and head.get("scj"):
+            sc = json.loads(head["scj"])          # generated in the harness: the reset line carries the complete scenario
+        if sc is None:
+            sc = {"id": tid, "side": head.get("side"), "gated": head.get("gated"), "steps": steps_of(trows)}
         if clause.startswith(pid + ".") or clause.startswith("X."):
             if clause in CLASS_CLAUSES:
                 sig = "%s:%s" % (clause, sc.get("side"))
@@ -146,7 +150,7 @@ def strict(v, rows):
     """Strict validation of the recorded traces against Conn.tla (binding / drift). Traces that use
     the generic outgoing-notification step are not modelled by Conn.tla and are skipped."""
     tr = vlib.split_traces(rows)
-    keep = [(tid, t) for (tid, s, t) in tr if not any(x.get("ev") in ("notify.begin", "notifybad.begin") or (x.get("ev") == "rd.deliver" and x.get("kind") == "init") for x in t)]
+    keep = [(tid, t) for (tid, s, t) in tr if not any(x.get("ev") in ("notify.begin", "notifybad.begin") or (x.get("ev") == "rd.deliver" and x.get("kind") in ("init", "listen")) for x in t)]
     bad = {tid for (tid, s, t) in tr if any(x.get("ev") in ("panic", "setup.error") for x in t)}
     keep = [(tid, t) for (tid, t) in keep if tid not in bad]
     out = vlib.outdir(v.pid)
